@@ -119,6 +119,50 @@ type c23Track struct {
 	events    []c23Event
 	recordTS  int64 // Timestamp field of the record when last read
 	lastTouch int64 // block time when the record was last seen changed in any way (amount or timestamp)
+	// every moment the record was seen changed in any way (amount, Timestamp, created, removed), in
+	// order; two neighbours 30 days or more apart delimit a period in which the delegation was left
+	// unchanged for 30 days or more
+	touches []int64
+}
+
+// touch records that the record was seen changed at block time `now`.
+func (t *c23Track) touch(now int64) {
+	t.lastTouch = now
+	if n := len(t.touches); n == 0 || t.touches[n-1] != now {
+		t.touches = append(t.touches, now)
+	}
+}
+
+// freshFrom returns the index of the first ledger event that belongs to the "fresh" part of the
+// history as seen from an evaluation at `at`: the amount that was in effect during the latest
+// period of 30 days or more without any change of the record (the statement: such a delegation's
+// credit equals its amount, whatever happened before), or the latest removal of the record,
+// whichever is later; 0 when there is neither.
+func (t *c23Track) freshFrom(at int64) int {
+	win := int64(c23Window / time.Second)
+	idleStart := int64(-1)
+	for i := 0; i < len(t.touches) && t.touches[i] <= at; i++ {
+		end := at
+		if i+1 < len(t.touches) && t.touches[i+1] < at {
+			end = t.touches[i+1]
+		}
+		if end-t.touches[i] >= win {
+			idleStart = t.touches[i]
+		}
+	}
+	idx := 0
+	for i, e := range t.events {
+		if e.T > at {
+			break
+		}
+		if idleStart >= 0 && e.T <= idleStart {
+			idx = i // the amount in effect when that period began
+		}
+		if e.Amount.IsZero() && i > idx {
+			idx = i
+		}
+	}
+	return idx
 }
 
 type c23Mon struct {
@@ -180,13 +224,25 @@ func (m *c23Mon) observe(where string, future bool) {
 			m.tracks[key] = t
 		}
 		// feed the ledger from the record read back
+		if t.recordTS != d.Timestamp && len(t.touches) >= 2 && now-t.lastTouch >= int64(c23Window/time.Second) {
+			// a change that ends a period of 30 days or more without any change, with earlier history
+			if fresh := t.freshFrom(now); fresh > 0 {
+				r.Probe("c23_change_after_30_idle_days_with_earlier_history")
+				for _, e := range t.events[:fresh] {
+					if e.Amount.GT(t.events[fresh].Amount) && e.Amount.GT(d.Amount.Amount) {
+						r.Probe("c23_change_after_30_idle_days_with_larger_amount_before")
+						break
+					}
+				}
+			}
+		}
 		if n := len(t.events); n == 0 || !t.events[n-1].Amount.Equal(d.Amount.Amount) {
 			t.events = append(t.events, c23Event{now, d.Amount.Amount})
-			t.lastTouch = now
+			t.touch(now)
 		}
 		if t.recordTS != d.Timestamp {
 			t.recordTS = d.Timestamp
-			t.lastTouch = now
+			t.touch(now)
 		}
 		m.check(where, d, t, now, false)
 		if !future {
@@ -211,10 +267,7 @@ func (m *c23Mon) observe(where string, future bool) {
 			if noHigher {
 				r.OracleEvals++
 				if c.LT(prevCredit) {
-					sig := "unchanged delegation, later evaluation"
-					if m.echo(t, now) {
-						sig = "unchanged delegation, later evaluation (credit still carries an amount held more than 30 days ago)"
-					}
+					sig := "unchanged delegation, later evaluation" + m.echo(t, now)
 					r.Fail("c23-credit-decreases-while-unchanged", sig,
 						"delegation %s -> %s amount=%s unchanged since %s: credit %s when evaluated at %s but %s when evaluated later at %s; ledger %s; record %s (observed at %s)",
 						s.NameOf(d.Delegator), s.NameOf(d.Provider), d.Amount.Amount, c23Time(last), prevCredit, c23Time(prevT), c, c23Time(ft), t.render(), c23Record(d), where)
@@ -234,7 +287,7 @@ func (m *c23Mon) observe(where string, future bool) {
 		if !seen[k] {
 			if n := len(t.events); n > 0 && !t.events[n-1].Amount.IsZero() {
 				t.events = append(t.events, c23Event{now, math.ZeroInt()})
-				t.lastTouch = now
+				t.touch(now)
 				t.recordTS = 0
 			}
 		}
@@ -242,16 +295,34 @@ func (m *c23Mon) observe(where string, future bool) {
 }
 
 // echo: does the ledger show a larger amount that was given up more than 30 days before `at`
-// (only used to give a violation a specific signature)?
-func (m *c23Mon) echo(t *c23Track, at int64) bool {
+// (only used to give a violation a specific signature)? Answers
+//
+//	""            no such amount,
+//	c23EchoRecent such an amount was held during or after the latest period of 30 days or more in
+//	              which the record did not change (resp. after the latest removal of the record),
+//	c23EchoStale  such amounts were held only before that period / removal: the credit still
+//	              carries what a delegation "left unchanged for 30 days or more" (credit == amount,
+//	              whatever happened earlier) must have shed by then.
+func (m *c23Mon) echo(t *c23Track, at int64) string {
 	inWindow := t.maxHeld(at-int64(c23Window/time.Second), at)
-	for _, e := range t.events {
-		if e.Amount.GT(inWindow) {
-			return true
+	fresh := t.freshFrom(at)
+	out := ""
+	for i, e := range t.events {
+		if e.T > at || !e.Amount.GT(inWindow) {
+			continue
 		}
+		if i >= fresh {
+			return c23EchoRecent
+		}
+		out = c23EchoStale
 	}
-	return false
+	return out
 }
+
+const (
+	c23EchoRecent = " (credit still carries an amount held more than 30 days ago)"
+	c23EchoStale  = " (credit still carries an amount given up before a period of 30 days or more without any change)"
+)
 
 // check evaluates the credit of d at time `at` (>= now; the delegation is assumed unchanged in between).
 func (m *c23Mon) check(where string, d dualstakingtypes.Delegation, t *c23Track, at int64, isFuture bool) math.Int {
@@ -271,9 +342,12 @@ func (m *c23Mon) check(where string, d dualstakingtypes.Delegation, t *c23Track,
 	r.OracleEvals++
 	if credit.GT(max) {
 		sig := "evaluated " + kind
-		if m.echo(t, at) {
-			sig += " (credit still carries an amount held more than 30 days ago)"
+		if e := m.echo(t, at); e != "" {
+			sig += e
 			r.Probe("c23_old_amount_echo")
+			if e == c23EchoStale {
+				r.Probe("c23_old_amount_echo_across_30_idle_days")
+			}
 		}
 		r.Fail("c23-credit-exceeds-max-held", sig,
 			"delegation %s -> %s: credit %s at %s exceeds the largest amount held during the 30 days before (%s); ledger %s; record %s (observed at %s)",
@@ -359,7 +433,7 @@ func c23NonTrivial(r *simrt.Run) bool {
 func init() {
 	AddOp("c23_pulse", (*Sim).opC23Pulse)
 	simrt.Register("C23", &simrt.PropSpec{Fn: runC23, NonTrivial: c23NonTrivial,
-		Rule: "real dual-staking delegations driven through chain histories under the simulated block clock: series of delegate/unbond on one (delegator, provider) pair with tape-chosen gaps (10 min, 59/61 min, hours, days, 29 d, 30 d -1h/0/+1h, 36 d; long gaps are made of slow blocks), mixed with redelegations, staking-module operations, stake changes and validator slashes. A harness ledger of (block time, amount) per pair is fed by reading the delegation records back after every transaction and block. Oracle on CalculateMonthlyCredit at the current block time and (on a context whose block time is advanced, the record unchanged) at +30 min, +1 h, +1 d, +7 d, around 30 days after the last change, +30 d, +45 d: 0 <= credit <= largest ledger amount in effect during the 30 days before the evaluation time (closed interval); no change of the record for >= 30 days => credit == amount; for a delegation with no larger amount in the last 30 days the credit is non-decreasing over the later evaluation times. Non-trivial = >=4 accepted delegation changes, a pair with >=3 ledger changes and an evaluation >= 30 days after the last change",
+		Rule: "real dual-staking delegations driven through chain histories under the simulated block clock: series of delegate/unbond on one (delegator, provider) pair with tape-chosen gaps (10 min, 59/61 min, hours, days, 29 d, 30 d -1h/0/+1h, 36 d; long gaps are made of slow blocks), mixed with redelegations, staking-module operations, stake changes and validator slashes. A harness ledger of (block time, amount) per pair is fed by reading the delegation records back after every transaction and block. Oracle on CalculateMonthlyCredit at the current block time and (on a context whose block time is advanced, the record unchanged) at +30 min, +1 h, +1 d, +7 d, around 30 days after the last change, +30 d, +45 d: 0 <= credit <= largest ledger amount in effect during the 30 days before the evaluation time (closed interval); no change of the record for >= 30 days => credit == amount; for a delegation with no larger amount in the last 30 days the credit is non-decreasing over the later evaluation times. The ledger also keeps every moment a record was seen changed; a violation of the upper bound is signed according to where the ledger shows the larger, given-up amount: held during or after the latest period of >= 30 days without any change of the record (the listed echo of CalculateCredit), or only before such a period / before a removal of the record (by the statement a delegation left unchanged for >= 30 days has credit == amount whatever happened earlier, so nothing older may weigh on later credits). Non-trivial = >=4 accepted delegation changes, a pair with >=3 ledger changes and an evaluation >= 30 days after the last change",
 		Real:    chainReal, Stubbed: chainStub,
 		Assume: append(append([]string{}, chainAssume...), "the empty-provider placeholder records are not evaluated (no rewards are computed from them)", "'unchanged' means: neither the amount nor the Timestamp of the delegation record changed, as read back from the keeper")})
 	_ = sdk.ZeroInt
